@@ -34,7 +34,7 @@ type c11Worker struct {
 type c11Scenario struct {
 	// configured concurrency per scope (0 = not configured)
 	All, IP, Source, Dest int
-	Workers          []c11Worker `json:"workers"`
+	Workers               []c11Worker `json:"workers"`
 }
 
 func c11Gen(t *rapid.T) c11Scenario {
@@ -244,10 +244,10 @@ func c11Info(sc c11Scenario) ev.Info {
 // ---- bucket table capacity -----------------------------------------------------------------------
 
 type c11Buckets struct {
-	Capacity int   `json:"capacity"`
-	Keys     []int `json:"keys"` // key ids acquired in order
+	Capacity int    `json:"capacity"`
+	Keys     []int  `json:"keys"` // key ids acquired in order
 	Release  []bool `json:"release"`
-	AgeSec   []int `json:"age_sec"` // virtual seconds to sleep before each operation
+	AgeSec   []int  `json:"age_sec"` // virtual seconds to sleep before each operation
 }
 
 func c11RunBuckets(sc c11Buckets) (vs []ev.V) {
